@@ -38,6 +38,7 @@ func NewBufferPool(left, right uint32) *BufferPool {
 func (p *BufferPool) Put(b *bytes.Buffer) {
 	if b != nil {
 		if pool, ok := p.shards[b.Cap()]; ok {
+			verifOnBufferPut(b)
 			pool.Put(b)
 		}
 	}
@@ -55,6 +56,7 @@ func (p *BufferPool) Get(n int) *bytes.Buffer {
 				b.Grow(size)
 			}
 			b.Reset()
+			verifOnBufferGet(b)
 			return b
 		}
 	}
@@ -89,11 +91,14 @@ type Pool[T any] struct {
 // Put 将一个值放入池中
 // puts a value into the pool
 func (c *Pool[T]) Put(v T) {
+	verifOnPool("put", v)
 	c.p.Put(v)
 }
 
 // Get 从池中获取一个值
 // gets a value from the pool
 func (c *Pool[T]) Get() T {
-	return c.p.Get().(T)
+	v := c.p.Get().(T)
+	verifOnPool("get", v)
+	return v
 }
